@@ -301,6 +301,9 @@ func runInstantSync(r *mon.Run, cc c11Case) {
 	} else {
 		r.Count("instant_sync_retrieval_failed", 1)
 		if withH {
+			if msg, ok := h.RunExited(); ok {
+				detail["honest_syncer_run"] = msg
+			}
 			r.Violation("stall:instant-sync:"+cc.Fault, "RetrieveCheckpoint failed although an honest peer holding the checkpoint was in the peer list", cc, detail)
 		}
 		closeAll(r, nodes)
@@ -324,6 +327,7 @@ func runInstantSync(r *mon.Run, cc c11Case) {
 	if withH {
 		if err := v.Connect(h.Addr); err != nil {
 			r.Count("honest_connect_errors", 1)
+			detail["first_connect_error"] = err.Error()
 		}
 		t0 := time.Now()
 		var announcing atomic.Bool
@@ -338,7 +342,10 @@ func runInstantSync(r *mon.Run, cc c11Case) {
 			}
 			if iter%20 == 0 && !v.HasPeer(h.Addr) && !h.HasPeer(v.Addr) {
 				if banned, _ := v.PS.Banned(h.IP); !banned {
-					v.Connect(h.Addr)
+					if err := v.Connect(h.Addr); err != nil {
+						detail["last_redial_error"] = err.Error()
+					}
+					r.Count("honest_redials", 1)
 				}
 			}
 			time.Sleep(50 * time.Millisecond)
@@ -350,6 +357,22 @@ func runInstantSync(r *mon.Run, cc c11Case) {
 		}
 	}
 	detail["victim"] = reportOf(v)
+	detail["byzantine_counters_at_end"] = b1.Counters()
+	var peersNow []string
+	for _, p := range v.S.Peers() {
+		peersNow = append(peersNow, fmt.Sprintf("%s synced=%v err=%v", p.Addr(), p.Synced(), p.Err()))
+	}
+	detail["victim_peers_at_end"] = peersNow
+	if h != nil {
+		var hp []string
+		for _, p := range h.S.Peers() {
+			hp = append(hp, fmt.Sprintf("%s synced=%v err=%v inbound=%v", p.Addr(), p.Synced(), p.Err(), p.Inbound))
+		}
+		detail["honest_peers_at_end"] = hp
+		if msg, ok := h.RunExited(); ok {
+			detail["honest_syncer_run"] = msg
+		}
+	}
 	b1.Close()
 	closeAll(r, nodes)
 	if withH {
